@@ -179,6 +179,34 @@ def r2_r3(ctx, facts):
     r3.instance("cached-metadata-iff-skip", ok, "cached_metadata must be `skip_metadata.then_some(statement_metadata)` for the very skip_metadata that is sent", cb.stmt_span(s))
     # R4 part: handle_result_metadata_new_id after each send
     hs = b.calls_to(CN + "handle_result_metadata_new_id")
+    # the post-processing of a response may have been moved into a NEW `async fn` (not spliced by the inliner): a call of such a
+    # helper whose future calls handle_result_metadata_new_id on one of its parameters counts as that call, on that argument
+    from ..util import new_async_helpers
+    class _Pseudo:
+        pass
+    for hb, ops in new_async_helpers(facts, b):
+        for hc in hb.calls_to(CN + "handle_result_metadata_new_id"):
+            locs = backward_slice(hb, hc.args[1])[0]
+            # upvar k of the helper's future = its k-th parameter = ops[k]
+            idx = None
+            for bbx in hb.live_blocks:
+                for stx in hb.stmts(bbx):
+                    if stx[0] == "A" and stx[1][0] in locs:
+                        for pl in _rv_places14(stx[2]):
+                            if pl[0] == 1:
+                                f = [e for e in pl[1] if isinstance(e, list) and e[0] == "f"]
+                                if f:
+                                    idx = f[0][1]
+            # every place where the helper's future is built (the async fn's own body is spliced into b by the inliner, so the
+            # coroutine aggregate and its operands - the actual arguments - are visible here)
+            for bb0 in sorted(b.live_blocks):
+                for st0 in b.stmts(bb0):
+                    if st0[0] == "A" and st0[2][0] == "agg" and st0[2][1][0] == "coroutine" and st0[2][1][1] == hb.path and idx is not None and idx < len(st0[2][2]):
+                        if any(getattr(h, "bb", None) == bb0 and isinstance(h, _Pseudo) for h in hs):
+                            continue
+                        ps = _Pseudo()
+                        ps.bb, ps.args, ps.span = bb0, [None, st0[2][2][idx]], b.stmt_span(st0)
+                        hs = hs + [ps]
     for tag, send in (("first", s1), ("resend", s2)):
         mine = [h for h in hs if b.dominates(send.bb, h.bb) and send.dest[0] in backward_slice(b, h.args[1])[0] | set()]
         # the response local flows through the await; accept dominance + slice containing the send's future
@@ -197,6 +225,11 @@ def r2_r3(ctx, facts):
                     "handle_result_metadata_new_id is handed a response that is not the answer to the EXECUTE just sent on this path (after the re-sent EXECUTE it must look at the NEW response): "
                     "a metadata id announced with the re-sent EXECUTE's result is never stored, and the next execution presents the stale id", h.span)
     return b
+
+
+def _rv_places14(rv):
+    from ..util import _rv_places
+    return _rv_places(rv)
 
 
 def r5(ctx, facts):
